@@ -15,6 +15,8 @@ Decided:
   R18.4  case: the five case-insensitive fields are upper-cased before validation, and again by the
          API functions the loader calls with the raw file contents
   R18.5  the worker returns 0 only after write_output_files
+  R18.6  option and name matching in the command-line layer and the validators is by equality or by membership in a
+         collection: no `x in <string>` (a parenthesised literal is not a tuple)
 
 Not decided: that jsonschema implements the schemas; content of the messages.
 """
@@ -290,6 +292,18 @@ def check(prog: Program, tier: str) -> Result:
 
     _check_sections(prog, res)
     _check_case(prog, res)
+    # R18.6 options and names are matched by equality / membership in a collection, never as substrings
+    from ..memo import substring_tests
+
+    n_sub = 0
+    for f_, n_, rtxt in substring_tests(prog):
+        if f_.module.endswith((".validate",)) or (f_.module.endswith(".manager") and not f_.cls):
+            n_sub += 1
+            res.ob("R18.6", f"{f_.qualname}: '{ast.unparse(n_)[:60]}' tests membership in a collection", False, prog.loc(f_, n_))
+            res.violation("R18.6", f"substring|{f_.qualname}|{ast.unparse(n_)[:60]}", prog.loc(f_, n_), f_.qualname,
+                          f"'{ast.unparse(n_)[:80]}' is a substring test: {rtxt[:40]} is a string, not a collection of names - an option or name that is merely contained in it "
+                          "is accepted (exit 0 for an unsupported option / a verdict for the wrong name)")
+    res.ob("R18.6", "the command-line layer and the validators match option / method names by equality or membership in a collection", n_sub == 0, "ghedesigner/manager.py")
     return res
 
 
@@ -338,6 +352,18 @@ def _check_sections(prog: Program, res: Result):
         if not accumulated:
             res.violation("R18.3", f"not-accumulated:{fname}", prog.loc(fi, node), q,
                           f"the result of {fname} does not contribute to the value returned by validate_input_file")
+    # the validator called for a section reads that section's schema(s): <section>.schema.json, or the <stem>_*.schema.json family
+    for sec, (fname, node, _) in sorted(validated.items(), key=lambda kv: str(kv[0])):
+        if sec is None or sec == "<whole instance>" or not prog.has_func(f"{VAL}.{fname}"):
+            continue
+        vf = prog.func(f"{VAL}.{fname}")
+        files = sorted({n_.value for n_ in ast.walk(vf.node) if isinstance(n_, ast.Constant) and isinstance(n_.value, str) and n_.value.endswith(".schema.json")})
+        stem = sec.split("_")[0]
+        okf = bool(files) and all(f_ == f"{sec}.schema.json" or f_.startswith(stem + "_") or f_ == f"{stem}.schema.json" for f_ in files)
+        res.ob("R18.3", f"section '{sec}' is validated by {fname}, which reads {files}", okf, prog.loc(fi, node))
+        if not okf:
+            res.violation("R18.3", f"section-schema|{sec}|{fname}", prog.loc(fi, node), q,
+                          f"the '{sec}' section is handed to {fname}, which validates against {files}: fields that only {sec}.schema.json requires or constrains are not checked, so an invalid file is accepted")
     for s in sections:
         ok = s in validated
         res.ob("R18.3", f"section '{s}' required by file_structure.schema.json is validated", ok, prog.loc(fi, fi.node))
@@ -615,7 +641,34 @@ _VSI_OLD = '    try:\n        schema_dir = Path(__file__).parent / "schemas"\n  
 _VSI_ITER_OK = '    schema_dir = Path(__file__).parent / "schemas"\n    schema_path = schema_dir / schema_file_name\n    schema = loads(schema_path.read_text())\n    errors = list(validator_for(schema)(schema).iter_errors(instance))\n    if errors:\n        print(error_msg, file=sys.stderr)\n        return 1\n    return 0\n'
 _VSI_ITER_BAD = '    schema_dir = Path(__file__).parent / "schemas"\n    schema_path = schema_dir / schema_file_name\n    schema = loads(schema_path.read_text())\n    errors = list(validator_for(schema)(schema).iter_errors(instance))\n    fields = [str(err.path[0]) for err in errors if err.path]\n    if fields:\n        print(error_msg, file=sys.stderr)\n        return 1\n    return 0\n'
 
+_VIF_OLD = """    err_count = 0
+    err_count += validate_file_structure(instance)
+    err_count += validate_fluid(instance["fluid"])
+    err_count += validate_grout(instance["grout"])
+    err_count += validate_soil(instance["soil"])
+    err_count += validate_pipe(instance["pipe"])
+    err_count += validate_borehole(instance["borehole"])
+    err_count += validate_simulation(instance["simulation"])
+    err_count += validate_geometric(instance["geometric_constraints"])
+    err_count += validate_design(instance["design"])
+    err_count += validate_loads(instance["loads"])
+"""
+_VIF_NEW = """    err_count = validate_file_structure(instance)
+    for section_name, section_validator in SECTION_VALIDATORS:
+        err_count += section_validator(instance[section_name])
+"""
+
 VARIANTS = [
+    Variant("table-driven validate_input_file with the soil row pointing at the grout validator (seeded C18_e)", "break",
+            [(VAL, "def validate_input_file(", "SECTION_VALIDATORS = (\n    (\"fluid\", validate_fluid),\n    (\"grout\", validate_grout),\n    (\"soil\", validate_grout),\n    (\"pipe\", validate_pipe),\n    (\"borehole\", validate_borehole),\n    (\"simulation\", validate_simulation),\n    (\"geometric_constraints\", validate_geometric),\n    (\"design\", validate_design),\n    (\"loads\", validate_loads),\n)\n\n\ndef validate_input_file("),
+             (VAL, _VIF_OLD, _VIF_NEW)], "R18.3"),
+    Variant("table-driven validate_input_file, every section with its own validator", "benign",
+            [(VAL, "def validate_input_file(", "SECTION_VALIDATORS = (\n    (\"fluid\", validate_fluid),\n    (\"grout\", validate_grout),\n    (\"soil\", validate_soil),\n    (\"pipe\", validate_pipe),\n    (\"borehole\", validate_borehole),\n    (\"simulation\", validate_simulation),\n    (\"geometric_constraints\", validate_geometric),\n    (\"design\", validate_design),\n    (\"loads\", validate_loads),\n)\n\n\ndef validate_input_file("),
+             (VAL, _VIF_OLD, _VIF_NEW)]),
+    Variant("supported conversions held in a parenthesised string instead of a tuple (seeded C18_f)", "break",
+            [("ghedesigner.manager", '    if convert == "IDF":', '    if convert in ("IDF"):')], "R18.6"),
+    Variant("supported conversions held in a one-element tuple", "benign",
+            [("ghedesigner.manager", '    if convert == "IDF":', '    if convert in ("IDF",):')]),
     Variant("validation through iter_errors, errors without a path are not counted (seeded C18_c)", "break", [(VAL, _VSI_OLD, _VSI_ITER_BAD)], "R18.3"),
     Variant("validation through iter_errors, verdict = the error list is empty", "benign", [(VAL, _VSI_OLD, _VSI_ITER_OK)]),
     Variant("worker continues after a failed validation", "break",
